@@ -47,12 +47,13 @@ var (
 )
 
 // counterInit is the init code of the hand-assembled helper contract: any call increments slot 0
-// and returns the new value, except calldata starting with byte 0xfe, which reverts.
-var counterRuntime = common.FromHex("361560115760003560f81c60fe14602457" + "5b6000546001018060005560005260206000f3" + "5b60006000fd")
-var counterInit = append(common.FromHex("602a80600b6000396000f3"), counterRuntime...)
+// and returns the new value (32 bytes), except calldata starting with byte 0xfe, which reverts, and
+// calldata 0xfd nn, which increments and returns 64*nn bytes (a successful call with a large result).
+var counterRuntime = common.FromHex("3615601a5760003560f81c8060fe14602d578060fd14603357505b6000546001018060005560005260206000f35b60006000fd5b506000546001018060005560005260003560f01c60ff1660061b6000f3")
+var counterInit = append(common.FromHex("605180600b6000396000f3"), counterRuntime...)
 
 func init() {
-	if len(counterRuntime) != 0x2a {
+	if len(counterRuntime) != 0x51 {
 		panic(fmt.Sprintf("counter runtime length %d", len(counterRuntime)))
 	}
 }
